@@ -225,14 +225,25 @@ func classify(r *ev.Rec, c Case, rf *ref, f *failure, dir string) string {
 	return ""
 }
 
+// infra: trouble of the harness itself (unstable reference probe on an overloaded machine, the crash run not dying where
+// the counting run said) is never a verdict about the property: the shard stops with a non-zero status and without a
+// VIOLATION line, which ./check reports as INFRA (exit 2).
+func infra(format string, args ...interface{}) {
+	fmt.Printf("INFRA-DETAIL property=C27 "+format+"\n", args...)
+	os.Exit(3)
+}
+
 func caseKey(c Case) string { return c.Sc.shape() + "|" + c.Step + "|" + c.Torn }
 
 func evaluate(r *ev.Rec, c Case) ev.Outcome {
 	s := c.Sc
 	rf := reference(s)
 	if rf.Err != "" {
-		if s.Name != "" || strings.HasPrefix(rf.Err, "harness:") {
-			return ev.Fail("scenario %s cannot be set up: %s", s.shape(), rf.Err)
+		if strings.HasPrefix(rf.Err, "harness:") {
+			infra("scenario %s: %s", s.shape(), rf.Err)
+		}
+		if s.Name != "" {
+			return ev.Fail("fixed scenario %s: %s", s.shape(), rf.Err)
 		}
 		return ev.Outcome{Discard: true}
 	}
@@ -242,7 +253,7 @@ func evaluate(r *ev.Rec, c Case) ev.Outcome {
 		return ev.Outcome{Classes: []string{"step_not_reached_on_this_tree"}}
 	}
 	if (st.Kind == "write") != (c.Torn != "") {
-		return ev.Fail("harness: case %+v: step kind is %s", c, st.Kind)
+		infra("case %+v: step kind is %s", c, st.Kind)
 	}
 	reinstall := s.isInstall() && contains(s.Installed, rf.NewVersion)
 	out := ev.Outcome{
@@ -277,7 +288,7 @@ func evaluate(r *ev.Rec, c Case) ev.Outcome {
 
 	dir, err := buildState(s)
 	if err != nil {
-		return ev.Fail("harness: %v", err)
+		infra("cannot build the pre-state: %v", err)
 	}
 	defer os.RemoveAll(dir)
 
@@ -285,12 +296,13 @@ func evaluate(r *ev.Rec, c Case) ev.Outcome {
 	if f == nil {
 		return out
 	}
-	if f.Probe != "crash_run" {
-		if id := classify(r, c, rf, f, dir); id != "" {
-			out.Excluded = id
-			add("excluded:" + id + ":" + f.Probe)
-			return out
-		}
+	if f.Probe == "crash_run" {
+		infra("scenario %s step %d %s torn=%q: %s: %s", s.shape(), st.N, st.Name, c.Torn, f.Why, f.Res.Brief())
+	}
+	if id := classify(r, c, rf, f, dir); id != "" {
+		out.Excluded = id
+		add("excluded:" + id + ":" + f.Probe)
+		return out
 	}
 	msg := fmt.Sprintf("scenario %s\n%v killed at step %d %s torn=%q (steps: %s)\nprobe %s: %s\ngot: %s\nreference without crash: start_before=%v mydb %q -> %q, testdb %q -> %q, new version %q",
 		s.shape(), s.args(), st.N, st.Name, c.Torn, strings.Join(rf.stepNames(), "; "), f.Probe, f.Why, f.Res.Brief(),
@@ -315,11 +327,11 @@ func probeAll(c Case, s Scenario, rf *ref, st *step, dir string, add func(string
 	}
 	res := run(dir, s, s.args(), env...)
 	if res.Exit != 137 {
-		return &failure{"crash_run", res, fmt.Sprintf("harness: the command was expected to die at step %d with status 137", st.N)}
+		return &failure{"crash_run", res, fmt.Sprintf("the command was expected to die at step %d with status 137", st.N)}
 	}
 	logData, _ := os.ReadFile(dir + "/crash.log")
 	if reached, err := parseSteps(string(logData)); err != nil || len(reached) != st.N || reached[st.N-1].Name != st.Name {
-		return &failure{"crash_run", res, fmt.Sprintf("harness: the crash run did not die at step %d %s; its log: %q", st.N, st.Name, logData)}
+		return &failure{"crash_run", res, fmt.Sprintf("the crash run did not die at step %d %s; its log: %q", st.N, st.Name, logData)}
 	}
 
 	// (a) octosql still starts
@@ -479,6 +491,7 @@ func TestC27(t *testing.T) {
 		"the file system keeps completed operations (no lost directory entries after the kill: the process dies, the machine does not)",
 		"one plugin (core/testdb, a single-binary archive), one configured database")
 	defer func() { r.AddClass("cli_invocations", invocations) }()
+	cli.CapSeconds = 60 // an install moves 2 x 16 MB and starts a plugin process; the machine may be loaded by other checks
 
 	ev.Enumerate(t, r, "grid_every_step", func(yield func(Case) bool) {
 		for _, s := range grid {
